@@ -471,7 +471,7 @@ def rehoist_locals(fn: ast.AST, entry, masked, function_locals) -> int:
             for i, s in enumerate(blk):
                 heads = _own_exprs(s)
                 for h in heads:
-                    for x in ast.walk(h):
+                    for x in _walk_same_scope(h):
                         if isinstance(x, ast.expr) and not isinstance(x, ast.Name) and masked(x, mask_names) == want:
                             hits.append((blk, i, s, x))
         if len(hits) != 1:
@@ -486,6 +486,25 @@ def rehoist_locals(fn: ast.AST, entry, masked, function_locals) -> int:
         cur.add(name)
         done += 1
     return done
+
+
+def _walk_same_scope(e: ast.AST):
+    """Sub-expressions evaluated once, in the scope of the statement: not inside comprehensions, lambdas or conditional arms."""
+    yield e
+    if isinstance(e, (ast.ListComp, ast.SetComp, ast.DictComp, ast.GeneratorExp, ast.Lambda)):
+        return
+    for f, v in ast.iter_fields(e):
+        kids = v if isinstance(v, list) else [v]
+        for ch in kids:
+            if not isinstance(ch, ast.AST):
+                continue
+            if isinstance(ch, (ast.ListComp, ast.SetComp, ast.DictComp, ast.GeneratorExp, ast.Lambda)):
+                continue
+            if isinstance(e, ast.IfExp) and f in ("body", "orelse"):
+                continue
+            if isinstance(e, ast.BoolOp) and ch is not e.values[0]:
+                continue
+            yield from _walk_same_scope(ch)
 
 
 def _own_exprs(s: ast.stmt) -> List[ast.AST]:
